@@ -66,7 +66,7 @@ Definition oent_eqb := opt_eqb N.eqb.
 (* NodeToInsert as validate_node reads it: the node, entity_name, old_room_id, old_verifying_key *)
 Definition required_right (old_author : option key) (author : key) : right_t :=
   match old_author with
-  | Some k => needed (N.eqb k author)
+  | Some k => MutateSelf
   | None => MutateSelf
   end.
 
